@@ -1377,3 +1377,250 @@ def run_c18(t):
     if tp is not None and snapshot(tp) != tp_snap:
         return False, {"why": "the caller's tree_parameters dictionary was modified", "after": repr(tp)}
     return True, {}
+
+# ------------------------------------------------------------------ Simulator (C15, C16)
+import logging
+def quiet_logging():
+    logging.getLogger().handlers = []
+    logging.getLogger().setLevel(logging.CRITICAL)
+    logging.disable(logging.CRITICAL)
+
+def gen_sim(rng, tier, metrics=None, deterministic=False):
+    n = rng.randint(20, 70)
+    n_arms = rng.randint(2, 4)
+    arms = rng.sample(range(0, 9), n_arms)
+    present = list(arms)
+    if n_arms > 2 and rng.random() < 0.3:
+        present = arms[:-1]                      # an arm that never occurs in the data
+    d = rng.randint(1, 3)
+    style = rng.choice(["smallint", "binary", "dyadic", "smallint"])
+    draw = gen.reward_stream(rng, style)
+    ds = [rng.choice(present) for _ in range(n)]
+    if rng.random() < 0.3:
+        # an arm that occurs only in the first rows (absent from an ordered test set)
+        a0 = present[0]
+        ds = [a0 if i < 4 else (rng.choice(present[1:]) if len(present) > 1 else a0) for i in range(n)]
+    rs = [draw() for _ in range(n)]
+    cx = gen.gen_ctx(rng, n, d, 0, 4)
+    for i in range(min(n, 5)):
+        cx[i][0] = float(i)
+    nb = rng.randint(1, 3)
+    bandits = []
+    metrics = metrics or gen.METRICS
+    for b in range(nb):
+        z = rng.random()
+        if z < 0.25:
+            kind = rng.choice(["greedy", "ucb", "softmax", "thompson", "popularity", "random"] if not deterministic else ["greedy", "ucb"])
+            lp = (kind, 0.0 if kind == "greedy" and (deterministic or rng.random() < 0.6) else gen.gen_hp(rng, kind)) if kind in ("greedy", "ucb", "softmax") else ((kind, None) if kind == "thompson" else (kind,))
+            npol = None
+        else:
+            npk = rng.choice(["radius", "knearest", "radius", "knearest", "lsh", "clusters", "tree", "none"])
+            kinds = ["greedy", "ucb", "linucb", "lingreedy"] if deterministic else ["greedy", "ucb", "thompson", "softmax", "linucb", "lingreedy"]
+            if npk == "tree":
+                kinds = [k for k in kinds if k in ("greedy", "ucb", "thompson")]
+            if npk == "none":
+                kinds = ["linucb", "lingreedy"] + ([] if deterministic else ["lints"])
+            kind = rng.choice(kinds)
+            if kind in gen.LIN_KINDS:
+                lp = gen.gen_lin_lp(rng, kind, scale_ok=False)
+                if kind == "lingreedy": lp = (kind, 0.0) + tuple(lp[2:])
+            elif kind == "thompson":
+                lp = (kind, None)
+            elif kind == "greedy":
+                lp = (kind, 0.0 if (deterministic or rng.random() < 0.7) else 0.2)
+            else:
+                lp = (kind, gen.gen_hp(rng, kind))
+            if npk == "radius":
+                m = rng.choice(metrics)
+                q = cx[rng.randrange(n)]
+                try:
+                    from scipy.spatial.distance import cdist
+                    dd = sorted(set(float(x) for x in cdist(np.asarray(cx), np.asarray([q]), metric=m).reshape(-1) if x == x))
+                    r = dd[min(len(dd) - 1, rng.randint(1, max(1, len(dd) // 2)))] if len(dd) > 1 else 1.0
+                except Exception:
+                    r = 2.0
+                npol = ("radius", float(r) if r > 0 else 1.0, m, None)
+            elif npk == "knearest":
+                npol = ("knearest", rng.randint(1, 4), rng.choice(metrics))
+            elif npk == "lsh":
+                npol = ("lsh", rng.randint(1, 4), rng.randint(1, 3), None)
+            elif npk == "clusters":
+                npol = ("clusters", 2, False)
+            elif npk == "tree":
+                npol = ("tree", {}, (True, True))
+            else:
+                npol = None
+        bandits.append({"name": "b%d" % b, "lp": lp, "np": npol, "seed": rng.randint(0, 10**6)})
+    test_size = rng.choice([0.2, 0.3, 0.5, 0.25])
+    n_test = math.ceil(n * test_size)
+    bs = rng.choice([0, 0, 1, rng.randint(1, max(1, n_test)), n_test, max(1, n_test // 2)])
+    thompson = any(b["lp"][0] == "thompson" for b in bandits)
+    if thompson:
+        rs = [float(int(abs(r)) % 2) for r in rs]
+    if any(b["lp"][0] == "popularity" for b in bandits):
+        rs = [abs(r) for r in rs]
+    return {"arms": arms, "ds": ds, "rs": rs, "cx": cx, "bandits": bandits, "test_size": test_size, "is_ordered": rng.random() < 0.5,
+            "batch_size": min(bs, n_test), "is_quick": rng.random() < 0.4, "seed": rng.randint(0, 10**6)}
+
+def build_sim_bandits(t):
+    out = []
+    label = mwh.make_label("int"); inv = lambda a: a
+    for b in t["bandits"]:
+        contextual_data = True
+        m = MAB_build(t["arms"], b)
+        out.append((b["name"], m))
+    return out
+
+def MAB_build(arms, b):
+    from mabwiser.mab import MAB
+    label = mwh.make_label("int")
+    return MAB(list(arms), mwh.build_lp(b["lp"], label, lambda l: l), mwh.build_np(b["np"]), seed=b["seed"])
+
+def is_context_free(b):
+    return b["np"] is None and b["lp"][0] not in gen.LIN_KINDS
+
+def run_simulator(t):
+    from mabwiser.simulator import Simulator
+    quiet_logging()
+    bandits = build_sim_bandits(t)
+    originals = [(n, copy.deepcopy(m)) for n, m in bandits]
+    any_ctx = any(not is_context_free(b) for b in t["bandits"])
+    sim = Simulator(bandits, list(t["ds"]), list(t["rs"]), [list(r) for r in t["cx"]] if any_ctx else None,
+                    test_size=t["test_size"], is_ordered=t["is_ordered"], batch_size=t["batch_size"], seed=t["seed"], is_quick=t["is_quick"])
+    sim.run()
+    return sim, originals, any_ctx
+
+def np_stats(x):
+    x = np.asarray(x, dtype=float)
+    return {"count": x.size, "sum": x.sum(), "min": x.min(), "max": x.max(), "mean": x.mean(), "std": x.std()}
+
+def stats_close(a, b):
+    for k in ("count", "sum", "min", "max", "mean", "std"):
+        x, y = float(a[k]), float(b[k])
+        if x != x or y != y:
+            if (x != x) != (y != y): return False
+            continue
+        if abs(x - y) > 1e-9 * max(1.0, abs(x), abs(y)): return False
+    return True
+
+def run_c16(t):
+    try:
+        sim, originals, any_ctx = run_simulator(t)
+    except Exception as e:
+        import traceback
+        return True, {"skipped": "simulator raised: %r" % e}
+    n = len(t["ds"]); ds = np.asarray(t["ds"]); rs = np.asarray(t["rs"], dtype=float)
+    ti = [int(i) for i in sim.test_indices]
+    if len(set(ti)) != len(ti) or any(i < 0 or i >= n for i in ti):
+        return False, {"why": "test_indices are not distinct row positions", "test_indices": ti[:20]}
+    n_test_expected = n - int(n * (1 - t["test_size"])) if t["is_ordered"] else None
+    if t["is_ordered"] and ti != list(range(n - len(ti), n)):
+        return False, {"why": "ordered split: test indices are not the last rows", "test_indices": ti[:20]}
+    if t["is_ordered"] and len(ti) != n_test_expected:
+        return False, {"why": "ordered split: %d test rows, expected %d" % (len(ti), n_test_expected)}
+    tr = [i for i in range(n) if i not in set(ti)]
+    arms = t["arms"]
+    for scope, idx, got in (("total", list(range(n)), sim.arm_to_stats_total), ("train", tr, sim.arm_to_stats_train), ("test", ti, sim.arm_to_stats_test)):
+        for a in arms:
+            mine = [rs[i] for i in idx if ds[i] == a]
+            want = np_stats(mine) if mine else {"count": 0, "sum": 0, "min": 0, "max": 0, "mean": 0, "std": 0}
+            if not stats_close(got[a], want):
+                return False, {"why": "%s statistics of arm %r differ from direct recomputation" % (scope, a), "got": str(got[a]), "want": str(want)}
+    for a in arms:
+        if sim.arm_to_stats_train[a]["count"] + sim.arm_to_stats_test[a]["count"] != sim.arm_to_stats_total[a]["count"] or \
+                abs(sim.arm_to_stats_train[a]["sum"] + sim.arm_to_stats_test[a]["sum"] - sim.arm_to_stats_total[a]["sum"]) > 1e-9 * max(1.0, abs(sim.arm_to_stats_total[a]["sum"])):
+            return False, {"why": "train + test counts / sums of arm %r do not give the totals" % a}
+    test_ds = [t["ds"][i] for i in ti]; test_rs = [t["rs"][i] for i in ti]
+    for (name, mab), b in zip(sim.bandits, t["bandits"]):
+        preds = sim.bandit_to_predictions[name]
+        if len(preds) != len(ti):
+            return False, {"why": "bandit %s has %d predictions for %d test rows" % (name, len(preds), len(ti))}
+        if any(p not in arms for p in preds):
+            return False, {"why": "bandit %s predicted something that is not an arm" % name}
+        nn = type(mab).__name__ in ("_RadiusSimulator", "_KNearestSimulator", "_LSHSimulator")
+        nstats = sim.bandit_to_arm_to_stats_neighborhoods.get(name) if (nn and not t["is_quick"]) else None
+        res = {}
+        for stat, table in (("min", sim.bandit_to_arm_to_stats_min), ("mean", sim.bandit_to_arm_to_stats_avg), ("max", sim.bandit_to_arm_to_stats_max)):
+            got = table[name]["total"] if t["batch_size"] > 0 else table[name]
+            credited = {a: [] for a in arms}
+            for i, p in enumerate(preds):
+                if p == test_ds[i]:
+                    credited[p].append(test_rs[i])
+                else:
+                    v = None
+                    if nstats is not None:
+                        row = nstats[i]
+                        if row and row.get(p):
+                            v = row[p][stat]
+                    if v is None:
+                        v = sim.arm_to_stats_train[p][stat]
+                    credited[p].append(v)
+            total_count = 0
+            for a in arms:
+                want = np_stats(credited[a]) if credited[a] else {"count": 0, "sum": float("nan"), "min": float("nan"), "max": float("nan"), "mean": float("nan"), "std": float("nan")}
+                if not stats_close(got[a], want):
+                    return False, {"why": "default evaluation (%s) of bandit %s, arm %r differs from direct recomputation" % (stat, name, a),
+                                   "got": str(got[a]), "want": str(want)}
+                total_count += got[a]["count"]
+            if total_count != len(ti):
+                return False, {"why": "evaluated counts of bandit %s sum to %d, not to the %d test rows" % (name, total_count, len(ti))}
+            res[stat] = got
+        for a in arms:
+            lo, mid, hi = res["min"][a]["sum"], res["mean"][a]["sum"], res["max"][a]["sum"]
+            if lo == lo and not (lo <= mid + 1e-9 * max(1, abs(mid)) and mid <= hi + 1e-9 * max(1, abs(hi))):
+                return False, {"why": "min / mean / max analyses of bandit %s, arm %r are not ordered: %r %r %r" % (name, a, lo, mid, hi)}
+    return True, {}
+
+def gen_c16(rng, tier):
+    return gen_sim(rng, tier)
+
+ALL_SIM_METRICS = ["cityblock", "chebyshev", "sqeuclidean", "euclidean", "seuclidean", "mahalanobis", "cosine", "canberra", "braycurtis"]
+
+def gen_c15(rng, tier):
+    t = gen_sim(rng, tier, metrics=ALL_SIM_METRICS)
+    return t
+
+def run_c15(t):
+    try:
+        sim, originals, any_ctx = run_simulator(t)
+    except Exception as e:
+        return True, {"skipped": "simulator raised: %r" % e}
+    ds = np.asarray(t["ds"]); rs = np.asarray(t["rs"], dtype=float); cx = np.asarray(t["cx"], dtype=float)
+    ti = [int(i) for i in sim.test_indices]; n = len(ds)
+    if t["is_ordered"]:
+        tr = [i for i in range(n) if i not in set(ti)]
+    else:
+        from sklearn.model_selection import train_test_split
+        tr, ti2 = train_test_split(list(range(n)), test_size=t["test_size"], random_state=t["seed"])
+        if [int(i) for i in ti2] != ti:
+            return False, {"why": "test_indices are not those of train_test_split with the given seed"}
+        tr = [int(i) for i in tr]
+    first_nn_metric = None
+    for (name, orig), b in zip(originals, t["bandits"]):
+        cf = is_context_free(b)
+        mab = orig
+        kw = {} if cf else {"contexts": cx[tr]}
+        mab.fit(ds[tr], rs[tr], **kw)
+        preds = []; exps = []
+        bs = t["batch_size"]
+        if bs == 0:
+            if cf:
+                preds = [mab.predict() for _ in ti]
+            else:
+                p = mab.predict(cx[ti]); preds = p if isinstance(p, list) else [p]
+        else:
+            for s in range(0, len(ti), bs):
+                idx = ti[s:s + bs]
+                if cf:
+                    preds += [mab.predict() for _ in idx]
+                    mab.partial_fit(ds[idx], rs[idx])
+                else:
+                    p = mab.predict(cx[idx]); preds += p if isinstance(p, list) else [p]
+                    mab.predict_expectations(cx[idx])
+                    mab.partial_fit(ds[idx], rs[idx], cx[idx])
+        got = list(sim.bandit_to_predictions[name])
+        if got != preds:
+            k = next(i for i, (a, c) in enumerate(zip(got, preds)) if a != c) if len(got) == len(preds) else -1
+            return False, {"why": "predictions reported for bandit %s differ from the public-API replay (first difference at test row %d)" % (name, k),
+                           "bandit": b, "simulator": str(got[:12]), "replay": str(preds[:12]), "batch_size": bs}
+    return True, {}
